@@ -298,4 +298,8 @@ LockInv == mu = 0 => \A t \in AllT : pc[t] \notin {"ML","DL1","DL2","DL3","RS","
 \* spec growth: Range never holds mu while it calls back (so a callback may call back into the map without deadlock)
 RangeCallbackUnlocked == \A t \in AllT : (pc[t] = "LD5" /\ cur[t].op = "Range") => mu # t
 Done == \A t \in AllT : pc[t] = "idle"
+\* Liveness: with every goroutine scheduled fairly the bounded programs always run to completion - no CAS retry loop or
+\* lock hand-over can cycle for ever (a retry is caused by another goroutine's progress, of which there is a bounded amount)
+LiveSpec == Spec /\ WF_vars(EndSetup) /\ \A t \in AllT : WF_vars(Step(t))
+AllCallsReturn == \A t \in AllT : (pc[t] # "idle") ~> (pc[t] = "idle")
 ====
